@@ -253,7 +253,9 @@ func (g *schemaGenerator) extractRefNames(t *schemas.Type) (string, string, erro
 func (g *schemaGenerator) generateDeclaredType(t *schemas.Type, scope nameScope) (codegen.Type, error) {
 	if decl, ok := g.output.declsBySchema[t]; ok {
 		if t.Dereferenced {
-			if decl.Name != scope.string() {
+			// The alias gives the type the name it has in its own schema; a name that another
+			// type already carries cannot be declared a second time.
+			if decl.Name != scope.string() && g.output.isUniqueTypeName(scope.string()) {
 				decl := &codegen.AliasType{
 					Alias: scope.string(),
 					Name:  decl.Name,
